@@ -104,6 +104,11 @@ def eval_case(pid, pl, res, case, obs, kf_class=None):
                 for i, (s, f) in enumerate(zip(t["table"], (tab or {}).get("fields", []))):
                     if f["ty"].get("k") == "fn" and f["ty"].get("cc") != s["cc"]:
                         problems.append(f"{t['name']}Vftable slot {i} `{f['name']}` has convention {f['ty'].get('cc')}, expected {s['cc']}")
+                # the same function has the same convention in every derived table
+                for i, (s, f) in enumerate(zip(t["baseTable"], (tab or {}).get("fields", []))):
+                    if f["ty"].get("k") == "fn" and f["ty"].get("cc") != s["cc"]:
+                        problems.append(f"{t['name']}Vftable slot {i} `{f['name']}` has convention {f['ty'].get('cc')} but the base table "
+                                        f"declares {s['cc']} for that slot")
     if problems:
         res.violation("; ".join(problems[:3]), payload(case, obs), kf_class)
 
